@@ -33,6 +33,19 @@ CLAIMS = {
          "Coq theorems over a model of find_sources.py / modulefinder.py (user paths) / load_graph duplicate checks, for all directory trees and depths: crawl_find_inverse (the module name assigned to a file resolves, on the search path mypy derives, to that file, its sibling stub, the package beside a module file, or in namespace mode the directory beside it), duplicate detection exact, per-file listing order-independent, directory walk = per-file crawl on trees without a module beside a same-named directory (dir_eq_files_no_shadow); the strict forms are refuted by machine-checked witnesses. Tied by exhaustive small-scope correspondence: every enumerated tree x option combination x cwd against real create_source_list / find_module / find_modules_recursive (0 mismatches over ~700k answers per quick run) and differential command lines DIR vs FILES vs -p",
          "Coq 8.16.1, no axioms; hand model tied by correspondence only; user paths only (no site-packages, typeshed, exclude, case-insensitive fs); dir_eq_package stated and model-checked on bounded trees, not proved; 2 known findings (module beside same-named directory)",
          "extracted Coq model vs in-process mypy on enumerated directory trees + induction proofs + differential command-line runs", "6/C18"),
+
+ "C13": ("proof",
+         "Coq theorems over the Errors state machine with predicates regenerated from mypy/errors.py, util.py and main.py: for all report streams and configurations an ignore comment removes exactly the non-blocking errors (and their notes) whose origin span hits its line and whose code matches (ignore_exact / ignore_delta), blockers are never ignored, unused-ignore is reported iff the ignore absorbed nothing (for coded ignores per listed code), disabling a code removes exactly the diagnostics carrying it (given the file's ignores are registered; necessity of that hypothesis proved: known finding), and the exit status is 0 iff no error-severity line, 2 iff a blocker, else 1 (exit_code_truth, which builds only on the repaired count_stats; the refutation of the previous substring version is kept). Tied by translator self-correspondence, real Errors objects driven with generated streams (vm_compute), and metamorphic runs of real mypy on the check-* corpus x 11 ignore annotation kinds x disable/enable of each code",
+         "Coq 8.16.1, no axioms; translator tools/extractors/t13.py (py2gallina subclass); model is per file, without ErrorWatchers, many-errors hiding and pretty/json rendering; 1 known finding (disabled code still reported before ignores are registered); F1 fixed in /repo",
+         "Coq proof over translated + hand model + correspondence vs driven implementation + metamorphic search", "6/C13"),
+ "C17": ("proof",
+         "Coq theorems: per-module option resolution (build_per_module_cache, clone_for_module, apply_changes, command line over config, inline last) equals the documented precedence for all section lists, modules of any depth and options (resolve_eq_spec, codes_eq_spec, clone_is_chain); the glob matcher equals its declarative semantics; finite table theorems over flag tables regenerated from main.py/config_parser.py: every boolean spelling on the command line and in config normalises to the same (dest, value); --strict = strict=True and its precedence; list-valued options read identically from CLI / ini / toml; inline-comment acceptance. Three documented rules are refuted with witnesses replayed on mypy (repeated pattern, leading *, bare *). Tied by exhaustive small-scope correspondence against clone_for_module / compile_glob / process_options over all four config sources, and source-equivalence + precedence runs of real mypy on witness programs",
+         "Coq 8.16.1, no axioms; hand model + T-generated tables (t17.py pins invert_flag_name, set_strict_flags, conversion functions by AST/text and fails closed); regex engine, configparser, tomllib are monitored contracts; expand_path / split_and_match_files not modelled; 4 known findings",
+         "induction over sorted insertion / refinement to fold + vm_compute reflection over generated tables + exhaustive correspondence", "6/C17"),
+ "C06": ("proof",
+         "Verified translation validation: a reference-count / definedness checker written in Gallina is proved sound for ALL control-flow graphs and ALL paths (checker_sound, annotation_check_sound: accepted => on every path no release of an unowned reference, no dec/inc of NULL, released or uninitialised values, no read of undefined / released values, no use of a structurally borrowed value after its owner's last release, no overwritten owned reference, nothing still owned at Return), plus a second verified checker for always-defined attribute claims (always_defined_check_sound). Extracted to OCaml and run on EVERY FuncIR the real mypyc pipeline produces from the repository's test programs and generated programs on each run (after refcount insertion; after spill for generator bodies), cross-checked by an independent Python re-implementation; dynamic monitor (18 compiled functions x 1000 runs incl. raising paths, UnboundLocalError/AttributeError cases, crash probes)",
+         "Coq 8.16.1, no axioms; per-name token semantics, not a heap model; later passes (lowering, copy propagation, flag elimination), codegen and the C primitives are outside this check (steals/is_borrowed/error_kind declarations trusted, monitored dynamically); idioms handled by explicit counted exceptions listed in notes/C06.md; 1 known finding (generator close() NULL decref), 1 fixed (spill of a borrowed value)",
+         "Coq-verified validator extracted and run on every real FuncIR + dynamic refcount monitor", "6/C06"),
 }
 NOT_YET = "model and theorems for this property are not built yet in this round (see DESIGN.md section 6 for the plan); not claimed until the Coq development and its tie exist"
 
